@@ -439,3 +439,54 @@ TRUSTED_BASE = [
     "extraction to OCaml 4.13.1 with ExtrOcamlBasic directives only (bool, option, unit, list, prod, sumbool, sumor; andb/orb inlined)",
     "hand-written Gallina model tied to /repo by the correspondence check (Rust harness built from /repo's working tree with --cfg n2_verif, python generators/diff, OCaml driver I/O)",
 ]
+
+
+# ----------------------------------------------------------------------------------------
+# generic differential helper
+
+
+def differential(run, what, harness, driver, h_suite, d_suite, lines, panic_map=None, show=None):
+    """Run the implementation (harness suite) and the model (driver suite) on `lines`; record
+    every disagreement as a broken tie.  panic_map: model 'panic N'/'oob N' -> substring expected in the
+    implementation's 'panic file:line|msg' (or 'abort')."""
+    impl = run_lines_sharded([harness, h_suite], lines)
+    model = run_lines_sharded([driver, d_suite], lines)
+    bad = []
+    for i, (a, b) in enumerate(zip(impl, model)):
+        if a == b:
+            continue
+        if panic_map and (b.startswith("panic ") or b.startswith("oob ")):
+            want = panic_map.get(b)
+            if want and (a.startswith("panic ") or a.startswith("abort")) and any(w in a for w in want):
+                continue
+        bad.append(i)
+    for i in bad[:5]:
+        run.tie("correspondence %s" % what, {"case": lines[i] if show is None else show(lines[i]),
+                                              "implementation": impl[i][:400], "model": model[i][:400]})
+    return impl, model, bad
+
+
+def vm_subsample(run, what, rng, lines, model, render_call, parse_result, n=100):
+    """Evaluate a sub-sample of the cases inside Coq (vm_compute) and compare with the extracted
+    code's answers.  render_call(line) -> Coq term; parse_result(text) -> list of canonical strings."""
+    idx = rng.sample(range(len(lines)), min(n, len(lines)))
+    v = "From N2 Require Import Model.All.\nFrom Coq Require Import String.\n"
+    for i in idx:
+        v += "Eval vm_compute in (%s).\n" % render_call(lines[i])
+    out = coq_eval(v)
+    got = parse_result(out)
+    if len(got) != len(idx):
+        run.tie("vm_compute sub-sample %s" % what, "parsed %d of %d results" % (len(got), len(idx)))
+        return 0
+    bad = 0
+    for i, g in zip(idx, got):
+        if g != model[i]:
+            bad += 1
+            if bad <= 3:
+                run.tie("extraction vs vm_compute %s" % what, {"case": lines[i], "vm": g, "ocaml": model[i]})
+    return len(idx)
+
+
+def coq_bytes_of_out(txt):
+    """'[1%N; 2%N]' or '[1; 2]%N' -> bytes"""
+    return bytes(int(x) for x in re.findall(r"(\d+)(?:%N)?", txt))
